@@ -490,6 +490,10 @@ func (g *Gen) spec(seed uint64, index int) Spec {
 		}
 		if f := fams[ep.Name]; f != nil {
 			hots[e].v = append(hots[e].v[:1], f.cands[:min(len(f.cands), 5)]...)
+			if len(f.cands) >= 36 {
+				// a large family (calendar versions): constructors get all of it
+				hots[e].v = append(hots[e].v, f.cands...)
+			}
 			if coldFam[ep.Name] {
 				hots[e].v = append(hots[e].v[:0], f.cands[:min(len(f.cands), 9)]...)
 				// an alias group: spellings a parser typically cleans to one text
@@ -729,6 +733,11 @@ func (g *Gen) spec(seed uint64, index int) Spec {
 			case KSort:
 				n := len(ep.Versions)
 				m := p.rng(2, max(2, min(n, 10)))
+				if p.chance(1, 40) {
+					// a large sort over the (repeated) pool: long runs of
+					// comparisons against one pivot, as a real sort produces
+					m = p.rng(300, 700)
+				}
 				l := make([]int, m)
 				for i := range l {
 					l[i] = p.n(n)
